@@ -23,10 +23,12 @@ import (
 // (or of the loaded value itself), or sit in a typed arm of a type switch.
 
 type optNil struct {
-	prog     *core.Program
-	u        *astUniverse
-	optional map[*types.Var]string // field -> where the parser leaves it nil
-	deref    map[*ssa.Function]map[int]bool
+	prog       *core.Program
+	u          *astUniverse
+	optional   map[*types.Var]string // field -> where the parser leaves it nil
+	deref      map[*ssa.Function]map[int]bool
+	containers map[*types.Var]map[*types.Var]bool
+	allFuncs   []*ssa.Function
 }
 
 var optNilCache *optNil
@@ -257,6 +259,19 @@ func guardedNonNil(fn *ssa.Function, load *ssa.UnOp, b *ssa.BasicBlock) bool {
 		return false
 	}
 	f := core.FieldOf(fa)
+	// store forwarding: the same field of the same base was just assigned a value known to be non-nil
+	for _, in := range load.Block().Instrs {
+		if in == ssa.Instruction(load) {
+			break
+		}
+		if st, ok := in.(*ssa.Store); ok {
+			if fa2, ok := st.Addr.(*ssa.FieldAddr); ok && core.FieldOf(fa2) == f && sameBase(fa2.X, fa.X) {
+				if _, isAlloc := st.Val.(*ssa.Alloc); isAlloc || core.DominatedByNil(st.Val, load.Block(), false) {
+					return true
+				}
+			}
+		}
+	}
 	for _, blk := range fn.Blocks {
 		for _, in := range blk.Instrs {
 			fa2, ok := in.(*ssa.FieldAddr)
@@ -347,6 +362,14 @@ func checkOptNilSinks(c *core.Ctx, rule string, u *astUniverse, funcs []*ssa.Fun
 				if len(uses) == 0 {
 					continue
 				}
+				if o.fromGuardedContainer(fn, fa.X, f, 2) {
+					c.Discharge(rule, key, ld.Pos(), "the node comes from a container that only ever receives nodes whose "+f.Name()+" was tested non-nil (guarded container)")
+					continue
+				}
+				if why, ok := optNilCorrelations[core.FnName(fn)+"|"+u.fieldOwner[f]+"."+f.Name()]; ok {
+					c.Discharge(rule, key, ld.Pos(), "named correlation: "+why)
+					continue
+				}
 				bad := false
 				for _, use := range uses {
 					if guardedNonNil(fn, ld, use.Block()) {
@@ -394,4 +417,152 @@ func originRefined(u *astUniverse, f *types.Var, fa *ssa.FieldAddr) bool {
 		}
 	}
 	return true
+}
+
+// Named correlations (one reason each): the field is non-nil whenever the code reaches the use, for a reason that is a
+// relation between two values rather than a dominating nil test.
+var optNilCorrelations = map[string]string{
+	"interpreter.(*Interpreter).ProcessCaseStatement|CaseStatement.Test": "Cases[offset].Test is nil exactly for the default case, and ParseSwitchStatement sets stmt.Default to that index (one default at most); the use is on the `stmt.Default != offset` branch",
+}
+
+// guardedContainers: map-typed struct fields all of whose insertions store a node whose field f was tested non-nil.
+func (o *optNil) guardedContainers(f *types.Var) map[*types.Var]bool {
+	if o.containers == nil {
+		o.containers = map[*types.Var]map[*types.Var]bool{}
+	}
+	if m, ok := o.containers[f]; ok {
+		return m
+	}
+	good := map[*types.Var]bool{}
+	bad := map[*types.Var]bool{}
+	for _, fn := range o.prog.ModuleFuncs() {
+		for _, b := range fn.Blocks {
+			for _, in := range b.Instrs {
+				mu, ok := in.(*ssa.MapUpdate)
+				if !ok {
+					continue
+				}
+				ld, ok := mu.Map.(*ssa.UnOp)
+				if !ok {
+					continue
+				}
+				cfa, ok := ld.X.(*ssa.FieldAddr)
+				if !ok || core.FieldOf(cfa) == nil {
+					continue
+				}
+				cont := core.FieldOf(cfa)
+				// value type must be the owner of f
+				if core.NamedTypeName(mu.Value.Type()) != o.u.fieldOwner[f] {
+					continue
+				}
+				// is (mu.Value).f tested non-nil on an edge dominating b?
+				ok2 := false
+				for _, blk := range fn.Blocks {
+					for _, i2 := range blk.Instrs {
+						fa2, isFA := i2.(*ssa.FieldAddr)
+						if !isFA || core.FieldOf(fa2) != f || !sameBase(fa2.X, mu.Value) || fa2.Referrers() == nil {
+							continue
+						}
+						for _, r := range *fa2.Referrers() {
+							if l2, isLd := r.(*ssa.UnOp); isLd && core.DominatedByNil(l2, b, false) {
+								ok2 = true
+							}
+						}
+					}
+				}
+				if ok2 {
+					good[cont] = true
+				} else {
+					bad[cont] = true
+				}
+			}
+		}
+	}
+	for c := range bad {
+		delete(good, c)
+	}
+	o.containers[f] = good
+	return good
+}
+
+// fromGuardedContainer: v derives (extract/phi/type assertion, parameters through all static callers) from a lookup in a
+// container that is guarded for f.
+func (o *optNil) fromGuardedContainer(fn *ssa.Function, v ssa.Value, f *types.Var, depth int) bool {
+	conts := o.guardedContainers(f)
+	if len(conts) == 0 {
+		return false
+	}
+	seen := map[ssa.Value]bool{}
+	var ok func(x ssa.Value) bool
+	ok = func(x ssa.Value) bool {
+		if seen[x] {
+			return true
+		}
+		seen[x] = true
+		switch t := x.(type) {
+		case *ssa.Extract:
+			return ok(t.Tuple)
+		case *ssa.Lookup:
+			if ld, isLd := t.X.(*ssa.UnOp); isLd {
+				if cfa, isFA := ld.X.(*ssa.FieldAddr); isFA && conts[core.FieldOf(cfa)] {
+					return true
+				}
+			}
+			return false
+		case *ssa.Phi:
+			for _, e := range t.Edges {
+				if !ok(e) {
+					return false
+				}
+			}
+			return true
+		case *ssa.TypeAssert:
+			return ok(t.X)
+		case *ssa.UnOp:
+			// spilled local
+			if al, isAl := t.X.(*ssa.Alloc); isAl && al.Referrers() != nil {
+				any := false
+				for _, r := range *al.Referrers() {
+					if st, isSt := r.(*ssa.Store); isSt && st.Addr == ssa.Value(al) {
+						any = true
+						if !ok(st.Val) {
+							return false
+						}
+					}
+				}
+				return any
+			}
+			return false
+		case *ssa.Parameter:
+			if depth == 0 {
+				return false
+			}
+			pf := t.Parent()
+			idx := -1
+			for i, q := range pf.Params {
+				if q == t {
+					idx = i
+				}
+			}
+			if o.allFuncs == nil {
+				o.allFuncs = o.prog.ModuleFuncs()
+			}
+			callers := core.CallersOf(pf, o.allFuncs)
+			if idx < 0 || len(callers) == 0 {
+				return false
+			}
+			for _, cs := range callers {
+				args := cs.Common().Args
+				if idx >= len(args) {
+					return false
+				}
+				if !o.fromGuardedContainer(cs.Parent(), args[idx], f, depth-1) {
+					return false
+				}
+			}
+			return true
+		}
+		return false
+	}
+	return ok(v)
 }
